@@ -70,7 +70,26 @@ CLAIM = {
             'pickle inside a history, parent and child continued interleaved) and oracle against never-related '
             'twins incl. similar generator, second round trip of the child, default-RS generators; R14 (count '
             'scale) - L = 257 / 258 / 300 / 65537 rays, 257 / 258 / 300 / 65537 entries, 12-dimensional shape, '
-            'by correspondence/oracle (the model is unbounded). An exception escaping an oracle is a failing input '
+            'by correspondence/oracle (the model is unbounded). Third round: R15 (distinct values that are merely close) - '
+            'theorems close_values_distinct_samples / tiny_doppler_not_time_invariant / close_phase_distinct_samples (single '
+            'ray: two (Fd, t) pairs less than one cycle apart, two starting phases less than one turn apart give different '
+            'samples, so only Fd = 0 is time invariant and the model is a function of the exact values) + oracles: sets of '
+            'live generators whose Fd / Ts are 0, 1e-15 .. 1e-9, or differ by a relative 1e-9 .. 1e-5, or are adjacent '
+            'doubles, same phases, histories issued interleaved / one after the other, each checked against the closed '
+            'form for its OWN values with the separation of the variants computed from the reference (>= 20 tolerances, '
+            'reported as close_margin_min; adjacent doubles: exact storage / forwarding only), call sequences of the free '
+            'function with close Fd / Ts / current_time / phi_l / psi_l, Ts = 1e-9 with requests and skips of 0..9 samples; '
+            'every variant also runs through the correspondence (model evaluated at exactly these values). The class has '
+            'no float setter (Fd / Ts / L are read-only), so "a setter takes effect for a close value" does not apply. R16 '
+            '(argument identity and buffer reuse) - model of the caller (Caller / CallerOp / runC: ONE 0-d size buffer and '
+            'ONE shape buffer refilled in place, passed to generate and skip alike, overwritten after the call), theorems '
+            'buffer_contents_at_call_time / later_refills_invisible, driver command histb + correspondence and oracles '
+            '(closed form, canonical twin with fresh Python ints) on histories whose sizes / shapes travel in such buffers '
+            '(rejected contents, constructor list reused by the setter, one buffer serving parent and derived copy), free '
+            'function with ONE phi / psi array (reshaped and refilled in place, the same array in both roles, equal-content '
+            'fresh copies, phases beyond one turn, arguments overwritten after the call, earlier results intact, equal to a '
+            'later call on fresh copies), ONE RandomState re-seeded in place for several constructors / shape assignments. '
+            'Arrays handed out by get_samples() are not arguments: scribbling over them is not part of R16. An exception escaping an oracle is a failing input '
             '(exit 1), a harness exception in the correspondence a broken tie (exit 1), never exit 2. L = 0 '
             '(ZeroDivisionError, modelled) is outside the property quantifier.'}
 
@@ -3108,7 +3127,7 @@ def check(ctx):
     ctx.rule = ('histories: constructor + 1..12 seeded requests generate(None|1..1e5) / skip(1..~8e9, incl. 2^e+-3) / '
                 'shape reassignment, Fd in {0} u [0.01,1000], Ts in 1e-9..1 (log-uniform + fixed values), L 1..20, '
                 'shape None/int/tuples of 0..3 dims, numpy RandomState(seed) phases; long-run sweep: skip to 2^e+d '
-                'then small requests; robustness families R1..R7 (typed sizes crossing the range of each integer type, typed parameters and shapes, phase layouts, rejected calls, boundary sizes/shapes, rescaled time axis, life cycle); histories of 1e3..3e4 requests of 1..4 samples; every history of <= 3 (quick) / 4 (thorough) requests over a 9-letter alphabet; non-trivial = distinct history with >= 2 requests / distinct value probe '
+                'then small requests; robustness families R15 (close-but-distinct Fd / Ts sets, margins from the reference) and R16 (argument buffers refilled in place); robustness families R1..R7 (typed sizes crossing the range of each integer type, typed parameters and shapes, phase layouts, rejected calls, boundary sizes/shapes, rescaled time axis, life cycle); histories of 1e3..3e4 requests of 1..4 samples; every history of <= 3 (quick) / 4 (thorough) requests over a 9-letter alphabet; non-trivial = distinct history with >= 2 requests / distinct value probe '
                 'whose tolerance is < 1e-6 / distinct oracle case')
     core.prove(ctx, MODULE, generated=[], drivers=[DRIVER], scratch=ctx.scratch)
     ctx.required_branches = ['op:gen', 'op:gen-default', 'op:skip', 'op:set-shape', 'shape:none', 'shape:int',
